@@ -6,17 +6,21 @@ import pipeline
 import talgen
 
 PID = 'C07'
-PROOF_MODULES = ['ChamProofs.Props.C07']
-THEOREMS = ['ChamVerif.static_fold', 'ChamVerif.C07_static_verbatim', 'ChamVerif.pyIndex_nonneg', 'ChamVerif.pyIndex_minus_one']
+PROOF_MODULES = ['ChamProofs.Props.C07', 'ChamProofs.Props.C07Once']
+THEOREMS = ['ChamVerif.static_fold', 'ChamVerif.C07_static_verbatim', 'ChamVerif.pyIndex_nonneg', 'ChamVerif.pyIndex_minus_one',
+            'ChamVerif.phase1_indexed', 'ChamVerif.C07_name_once']
 LEVEL_TEXT = ('Proved in Lean: when nothing dynamic targets an element, prepare_attributes yields exactly its static attributes — name, value, '
               'quote, spacing, "=" — in source order, minus the language attributes (C07_static_verbatim, induction over the attribute list), '
-              'and the list-index semantics the merge step relies on (pyIndex_*; the -1 case is what made D-07a lose an attribute). The merge '
-              'of dynamic entries (case-insensitive targeting, in-place replacement, appending, i18n names), the attribute node construction '
+              'and the list-index semantics the merge step relies on (pyIndex_*; the -1 case is what made D-07a lose an attribute); for every attribute list, tal:attributes list and i18n:attributes '
+              'list, no two entries of the prepared list carry the same name compared case-insensitively - a dynamic entry that targets a name '
+              'already present replaces it in place, an i18n name already present adds nothing - whenever the start tag does not write a kept '
+              'name twice (C07_name_once, from the invariant Indexed that ties the list to the name index of prepare_attributes through its '
+              'three phases; phase1_indexed). The values of the merged entries, the attribute node construction '
               '(substitution / boolean / dictionary / interpolation, later dictionaries filtering earlier attributes) and the emitters are an '
               'executable model tied to the code by end-to-end correspondence; the six rules of the property are judged on the '
               'implementation by an independent reference over the generated attribute grid.')
-LEVEL_NOTE = ('Trusted: Lean kernel; the interpreter model; the harness reference. The full invariant of the merge loop (at-most-once, '
-              'position preservation for arbitrary dynamic lists) is not yet proved in Lean. Known finding D-07b: a dynamic value for an '
+LEVEL_NOTE = ('Trusted: Lean kernel; the interpreter model; the harness reference. Position preservation of static attributes under arbitrary dynamic lists is proved as a prefix property in C18_others_preserved. '
+              ' Known finding D-07b: a dynamic value for an '
               'unquoted or valueless static attribute re-uses its empty quote.')
 RULE = ('elements with 0..4 static attributes (mixed case) x tal:attributes lists (named and dict entries, overlapping names in different '
         'case, ;; escapes) x values {None, default, "", 0, False, True, str, hostile str} x boolean configurations {HTML default, explicit '
